@@ -256,33 +256,66 @@ def run(ctx):
                         for i, sp in enumerate(p["ps"][1]["ps"]):
                             for bd in pat_binds(sp):
                                 names[bd["var"]] = i
-        # each write!(.., "Expected {}", collect_rules(x)) : find literal pieces and the variable formatted next
-        okl = True
+        # the four-way table on (positives.is_empty(), negatives.is_empty()): an arm prints exactly the lists its pattern says are
+        # non-empty, list 0 after "Expected" / "expected", list 1 after "Unexpected" (templates decoded from format_args!)
+        from .. import fmtargs
+
+        def which(e):
+            e2 = e
+            while e2["k"] in ("addr_of", "use", "cast"):
+                e2 = e2["e"]
+            ls = [names[m["var"]] for m in walk(e2) if m["k"] == "local" and m["var"] in names]
+            return ls[0] if len(ls) == 1 else None
+
+        bad = []
         found = {}
-        for n in walk(b["value"]):
-            if n["k"] == "match" and n.get("src") == "normal" and "is_empty" in repr(n["scrut"])[:4000]:
-                for arm in n["arms"]:
-                    lits = [m["v"]["str"] for m in walk(arm["body"]) if m["k"] == "lit" and m["v"] and "str" in m["v"]]
-                    vars_ = [names[m["var"]] for m in walk(arm["body"]) if m["k"] == "local" and m["var"] in names]
-                    text = " ".join(lits)
-                    found[text] = vars_
-        # check: the arm mentioning only "Expected" formats list 0; only "Unexpected" formats list 1; the combined arm prints 1 then 0
-        for text, vs in found.items():
-            tl = text.lower()
-            if "unexpected" in tl and "expected" in tl.replace("unexpected", ""):
-                if vs[:2] != [1, 0]:
-                    okl = False
-            elif "unexpected" in tl:
-                if vs[:1] != [1]:
-                    okl = False
-            elif "expected" in tl:
-                if vs[:1] != [0]:
-                    okl = False
-        if found and okl and names:
-            rt.inst("labels", c.loc(b["value"].get("sp")), "ok", {"arms": {k: v for k, v in found.items()}})
+        tables = [n for n in walk(b["value"]) if n["k"] == "match" and n.get("src") == "normal" and n["scrut"]["k"] == "tuple"
+                  and len(n["scrut"]["es"]) == 2 and all(x["k"] == "mcall" and x.get("name") == "is_empty" for x in n["scrut"]["es"])]
+        if len(tables) != 1 or not names:
+            bad.append("no match on (positives.is_empty(), negatives.is_empty()) found")
         else:
-            rt.violate("labels", "the list filled for failed positive attempts is not the one printed under `Expected` (or the message arms could not be read): %s" % found,
-                       c.loc(b["value"].get("sp")))
+            m = tables[0]
+            if [which(x["recv"]) for x in m["scrut"]["es"]] != [0, 1]:
+                bad.append("the table is not indexed by (is_empty(list 0), is_empty(list 1))")
+            seen = set()
+            for arm in m["arms"]:
+                pat = arm["pat"]
+                flags = []
+                if pat["k"] == "tuple" and len(pat["ps"]) == 2:
+                    for q in pat["ps"]:
+                        v = (q.get("lit") or {}).get("bool") if q["k"] == "expr" else None
+                        flags.append(None if v is None else str(v).lower() == "true")
+                if len(flags) != 2 or None in flags:
+                    bad.append("an arm of the table is not a pair of boolean literals")
+                    continue
+                seen.add(tuple(flags))
+                want = [i for i, empty in ((1, flags[1]), (0, flags[0])) if not empty]      # negatives first, as printed today
+                ps = fmtargs.pieces(arm["body"])
+                if ps is None:
+                    bad.append("the template of arm %s cannot be decoded" % (flags,))
+                    continue
+                printed = []
+                prev = ""
+                for x in ps:
+                    if isinstance(x, str):
+                        prev = x
+                        continue
+                    li = which(x[1])
+                    printed.append(li)
+                    lab = prev.lower().rstrip()
+                    if li == 0 and not (lab.endswith("expected") and not lab.endswith("unexpected")):
+                        bad.append("arm %s prints the expected-list after %r" % (flags, prev))
+                    if li == 1 and not lab.endswith("unexpected"):
+                        bad.append("arm %s prints the unexpected-list after %r" % (flags, prev))
+                found[str(tuple(flags))] = printed
+                if sorted(x for x in printed if x is not None) != sorted(want) or None in printed:
+                    bad.append("arm %s prints lists %s, its pattern says %s are non-empty" % (flags, printed, sorted(want)))
+            if seen != {(True, True), (True, False), (False, True), (False, False)}:
+                bad.append("the table does not have the four arms")
+        if not bad:
+            rt.inst("labels", c.loc(b["value"].get("sp")), "ok", {"arms": found})
+        else:
+            rt.violate("labels", "the Expected / Unexpected table of the message is off: %s" % "; ".join(sorted(set(bad))), c.loc(b["value"].get("sp")))
     # ---- prepare
     b = c.body(T + "prepare")
     if b is None:
@@ -433,6 +466,63 @@ def run(ctx):
             rt.inst("record_during_with", c.loc(b["value"].get("sp")), "ok", {"effects": effs})
         else:
             rt.violate("record_during_with", "frame push / closure / pop / leaf-only record are not in that order: %s" % effs, c.loc(b["value"].get("sp")))
+    # ---- the values that flow through the frame stack (mutation scan: `*has_children = false`, `succeeded = res.is_none()`,
+    #      `positive: false` in new(), `upper_pos == pos` in get_entry were invisible to the ordered-effect rule above)
+    from .c15 import Terms
+
+    def lit_bool(t):
+        return t[0] == "lit" and t[1] == "bool" and str(t[2]).lower() or None
+
+    b = c.body(T + "record_during_with")
+    if b is not None:
+        tm = Terms(c, b)
+        bad = []
+        pushes = [n for n in walk(b["value"]) if n["k"] == "mcall" and n.get("callee") and strip_generics(n["callee"]["path"]) == "alloc::vec::Vec::push"]
+        if len(pushes) == 1:
+            t = tm.t(pushes[0]["args"][0])
+            if not (t[0] == "tuple" and len(t) == 4 and t[1] == ("param", "rule") and t[2][:2] == ("call", "pest_typed::input::Input::byte_offset")
+                    and t[2][2] == ("param", "pos") and lit_bool(t[3]) == "false"):
+                bad.append("the frame pushed is not (rule, pos.byte_offset(), false)")
+        else:
+            bad.append("%d frame pushes" % len(pushes))
+        marks = [n for n in walk(b["value"]) if n["k"] == "assign"]
+        if len(marks) != 1 or lit_bool(tm.t(marks[0]["r"])) != "true":
+            bad.append("the enclosing frame is not marked `has_children = true`")
+        recs = [n for n in walk(b["value"]) if n["k"] in ("call", "mcall") and n.get("callee") and strip_generics(n["callee"]["path"]) == strip_generics(T + "record")]
+        if len(recs) == 1:
+            a = ([recs[0]["recv"]] if recs[0]["k"] == "mcall" else []) + recs[0]["args"]
+            ts = [tm.t(x) for x in a]
+            okr = len(ts) == 4 and ts[1] == ("param", "rule") and ts[2] == ("param", "pos") and ts[3][0] == "call" and \
+                ts[3][1].endswith("Option::is_some") and "call_once" in repr(ts[3])
+            if not okr:
+                bad.append("record is not called with (rule, pos, <closure result>.is_some())")
+        if bad:
+            rt.violate("record_during_with: values", "; ".join(bad), c.loc(b["value"].get("sp")))
+        else:
+            rt.inst("record_during_with: values", c.loc(b["value"].get("sp")), "ok")
+    b = c.body(T + "new")
+    if b is not None:
+        tm = Terms(c, b)
+        st = [n for n in walk(b["value"]) if n["k"] == "struct"]
+        fl = {f["name"]: tm.t(f["e"]) for f in st[0]["fields"]} if st else {}
+        bad = []
+        if lit_bool(fl.get("positive", ("?",))) != "true":
+            bad.append("a new tracker does not start positive")
+        if fl.get("position", ("?",))[:2] != ("call", "pest_typed::input::Input::as_position"):
+            bad.append("a new tracker does not start at the given position")
+        if fl.get("attempts", ("?",))[:2] != ("call", "alloc::collections::btree::map::BTreeMap::new"):
+            bad.append("a new tracker does not start without attempts")
+        (rt.violate("new", "; ".join(bad), c.loc(b["value"].get("sp"))) if bad else rt.inst("new", c.loc(b["value"].get("sp")), "ok"))
+    b = c.body(T + "get_entry")
+    if b is not None:
+        conds = [n for n in walk(b["value"]) if n["k"] == "binary" and n.get("op") in ("==", "!=", "<", ">", "<=", ">=")]
+        revs = [n for n in walk(b["value"]) if n["k"] == "mcall" and n.get("name") == "rev"]
+        bad = []
+        if len(conds) != 1 or conds[0]["op"] != "!=":
+            bad.append("the enclosing rule is not the nearest frame whose position *differs* (`!=`) from the failure position")
+        if len(revs) != 1:
+            bad.append("frames are not searched from the top of the stack (`.rev()`)")
+        (rt.violate("get_entry", "; ".join(bad), c.loc(b["value"].get("sp"))) if bad else rt.inst("get_entry", c.loc(b["value"].get("sp")), "ok"))
     # ---- furthest-position bookkeeping: only `prepare` moves the position, and every recorded attempt passed `prepare`
     pos_writers = []
     entry_sites = []
